@@ -153,3 +153,32 @@ TARGETS.append(
          patterns=[('self.coordinate_gene_to_genomic(_i, gene)', {'_i': 'Z'}, '(gene2g gstrand gs ge {_i})', 'res Z'),
                    ('transcript not in _g.transcripts', {'_g': 'genemodel'}, '(negb member)', 'bool'),
                    ('_t.get_transcript_index(_p)', {'_t': 'txmodel', '_p': 'Z'}, '(g2tx tstrand ex {_p})', 'res Z')]))
+
+# (5) cli/call_variant_peptide.py: the dispatch (batching) loop of call_variant_peptide        vs Batch.batches_fix
+#     Only the run of statements `dispatches = []` .. `for tx_id in tx_sorted:` is translated; the observable
+#     is the sequence of batches handed to caller_reducer (synthetic local batches__).  A transcript is the
+#     model's (id, skipped?) pair; gather_data_for_call_variant returns its data or None (= skipped).
+#     Trusted: logging / tally statements have no effect on the batches (ignore_stmts); the pinned `if
+#     caller.threads > 1: ... else: ...` hands Batch.dispatched to the reducer; the loop over `results` only consumes
+#     results (the translator checks that it assigns no name the translated statements use, except the outer loop
+#     variable tx_id, which nothing reads after it).
+TARGETS.append(
+    dict(out='Py_call_variant_peptide', file='moPepGen/cli/call_variant_peptide.py', cls=None,
+         func='call_variant_peptide', coq_name='call_variant_peptide_batches', imports=['Model.Batch'],
+         args=[('threads', 'Z'), ('l', 'list txitem')],
+         types={'txitem': '(Z * bool)', 'dispatch': '(Z * bool)'},
+         params={'args': (None, 'opaque')},
+         pre_env={'tx_sorted': ('l', 'list txitem')},
+         slice=('dispatches = []', 'for tx_id in tx_sorted:'),
+         slice_pre=['batches__ = []'], slice_post=['return batches__'],
+         var_types={'batches__': 'list (list Z)', 'dispatches': 'list Z'},
+         ret_ty='list (list Z)', res_ty='list (list Z)', ok='{}', stub='[[0]]',
+         errors={}, raises=[],
+         ignore_stmts=[r'^logger\.', r'^caller\.tally\.', r'^for .+ in results:'],
+         stmt_rewrites=[('if caller.threads > 1:\n    results = process_pool.map(caller_reducer, dispatches)\nelse:\n    results = [caller_reducer(dispatches[0])]',
+                         'batches__ = hand_to_reducer__(batches__, dispatches)')],
+         truthy={'dispatch': '(negb (snd {0}))'},
+         patterns=[('caller.gather_data_for_call_variant(_t, pool)', {'_t': 'txitem'}, '{_t}', 'dispatch'),
+                   ('caller.threads', {}, 'threads', 'Z'),
+                   ('hand_to_reducer__(_b, _d)', {'_b': 'list (list Z)', '_d': 'list Z'}, '({_b} ++ [dispatched threads {_d}])', 'list (list Z)')],
+         stmt_patterns=[('dispatches.append(_d)', {'_d': 'dispatch'}, 'dispatches', '({cur} ++ [fst {_d}])')]))
